@@ -1,16 +1,18 @@
 """C17 -- pointers set for a test are restored after it; plugin actions nest properly.
 Scenario: a session  op*  with
   op    ::= :inst <name> <kind 0 plain|1 SetPointerPlugin> | :act <name> <post 0|1> <n> act*n | :en <id> | :dis <id> | :rm <name> | :reset
+          | :reinst <id>                     (installPlugin on the EXISTING plugin object <id>, removed or dropped earlier; then the chain)
           | :test xtest                      (one test run through the registry)
           | :run <k> xtest*k                 (one TestRegistry::runAllTests over k tests, then the chain)
           | :runner <rep> <k> xtest*k        (CommandLineTestRunner::runAllTestsMain on that registry, -r<rep>, then the chain)
   xtest ::= <n> xstmt*n <n> xstmt*n <n> xstmt*n                         (setup, body, teardown)
   xstmt ::= :set <loc> <val> | :wr <loc> <val> | :fail | :failc | :thr | :thrstd | act
-  act   ::= :ai <name> <kind> | :ar <name> | :ae <id> | :ad <id> | :az   (install / remove by name / enable / disable / resetPlugins)
+  act   ::= :ai <name> <kind> | :ar <name> | :ae <id> | :ad <id> | :az | :ab <id>
+            (install a new object / remove by name / enable / disable / resetPlugins / install the existing object <id> again)
 (plugin ids = creation ordinals, the runner's own pointer plugin takes one; name a0 = DEF_PLUGIN_SET_POINTER; :act installs a
 recording plugin that performs its actions inside its pre (0) or post (1) action).
 Observation: per test ":t failed npre ids npost ids pool[0..39]" (ids without the plugins an action of that test named),
-per :rm/:reset and after :run/:runner ":c n ids"."""
+per :rm/:reset/:reinst and after :run/:runner ":c n ids"."""
 import os
 import re
 from vlib import tz
@@ -44,21 +46,32 @@ RULE = ("(a) pointer sessions: a SetPointerPlugin (+0-3 recording plugins, any e
         "installation of a new head x from setup, body, teardown, a pre action, a post action, each followed by a further test; "
         "(d) the command line runner: registries of 0-4 plugins named a0 (the runner's own plugin name) or otherwise, pointer plugin "
         "or not, enabled or not -- exhaustively for 0-2 plugins -- then runAllTestsMain (-r1..3) over 1-4 tests with redirections "
-        "(incl. the limit), failures, throws and actions.  non-trivial = at least one test with a redirection, a removal on a chain "
-        "of >= 2 plugins, or an action inside a run")
+        "(incl. the limit), failures, throws and actions; "
+        "(e) re-installing plugin OBJECTS: exhaustively every chain of 1-5 plugins x removal by name of every position x the removed "
+        "object installed again (once, twice; two objects removed and brought back in either order; all brought back after "
+        "resetPlugins in any rotation), a test after every step; inside runs: the removal in one test and the re-install in a later "
+        "one from setup / body / teardown / a plugin's pre / post action, and an acting plugin that removes and re-installs another "
+        "plugin in every test; random histories over 2-7 objects (install new, remove by name at head / middle / tail / absent / "
+        "duplicate names, reset, re-install an object that is outside the chain, enable / disable objects inside and outside the "
+        "chain, tests and runs in between, pointer plugins with redirections).  non-trivial = at least one test with a "
+        "redirection, a removal on a chain of >= 2 plugins, a re-install, or an action inside a run")
 ASSUMPTIONS = ["a test that uses UT_PTR_SET runs with an enabled SetPointerPlugin installed (the user's own, or the one CommandLineTestRunner "
                "installs) that no action of that very test names, and no SetPointerPlugin is constructed while that test runs",
                "plugin names differ from \"null\", the name of the chain's sentinel",
                "the scripted plugin actions install / remove / enable / disable plugins but neither fail nor throw; an acting plugin is named "
-               "only by itself, in the last of its actions; plugin objects are installed once; tests run in the current process; "
+               "only by itself, in the last of its actions; tests run in the current process; "
                "exceptions are not rethrown (the runner is given -e when a scripted test throws)",
                "whether a plugin that an action of a test installs, removes, enables or disables sees that very test's pre / post action is "
                "not fixed by the property: its log entries for that test are not observed (from the next test on they are)",
-               "after the runner, a user plugin that shares the runner's plugin name may or may not be left installed (not observed)"]
+               "after the runner, a user plugin that shares the runner's plugin name may or may not be left installed (not observed)",
+               "installPlugin is handed only plugin objects that are NOT in the chain at that moment (new ones, or ones removed by name / "
+               "dropped by resetPlugins earlier): handing it an object that is in the chain makes the chain circular (pre / post actions and "
+               "removal never end; Coq: C17_install_in_chain_refuted, C17_circular_chain_never_ends) and is outside the property; the "
+               "runner's own plugin object is gone when the runner returns and is never installed again"]
 CRASH_IS_VIOLATION = True
 ABORTS = [":fail", ":failc", ":thr", ":thrstd"]
-ACTS = {":ai": 2, ":ar": 1, ":ae": 1, ":ad": 1, ":az": 0}
-OPS = (":inst", ":act", ":en", ":dis", ":rm", ":reset", ":test", ":run", ":runner")
+ACTS = {":ai": 2, ":ar": 1, ":ae": 1, ":ad": 1, ":az": 0, ":ab": 1}
+OPS = (":inst", ":act", ":en", ":dis", ":rm", ":reset", ":reinst", ":test", ":run", ":runner")
 
 
 # ----------------------------------------------------------------------------- scenario syntax
@@ -107,7 +120,7 @@ def parse(s):
                 acts.append(a)
             ops.append(("act", t[i + 1], t[i + 2], acts))
             i = j
-        elif k in (":en", ":dis", ":rm"):
+        elif k in (":en", ":dis", ":rm", ":reinst"):
             ops.append((k[1:], t[i + 1]))
             i += 2
         elif k == ":reset":
@@ -145,7 +158,7 @@ def fmt_op(o):
         return ":inst %s %s" % (o[1], o[2])
     if k == "act":
         return (":act %s %s %x " % (o[1], o[2], len(o[3])) + " ".join(" ".join(a) for a in o[3])).strip()
-    if k in ("en", "dis", "rm"):
+    if k in ("en", "dis", "rm", "reinst"):
         return ":%s %s" % (k, o[1])
     if k == "reset":
         return ":reset"
@@ -176,7 +189,7 @@ def keeps(a, x):
         return True
     if a[0] == ":ar":
         return int(a[1], 16) != x.name
-    if a[0] in (":ae", ":ad"):
+    if a[0] in (":ae", ":ad", ":ab"):
         return int(a[1], 16) != x.id
     return False
 
@@ -188,6 +201,25 @@ class Reg:
         self.c = []      # newest first
         self.nx = 0
         self.names = []  # (id, name) of every plugin created
+        self.out = []    # the plugin objects that exist but are not in the chain (removed by name, dropped by reset)
+        self.bad = False # an object was re-installed that is in the chain / does not exist / is the runner's: not a valid scenario
+
+    def clone(self):
+        r = Reg()
+        def cp(p):
+            q = Plug(p.id, p.name, p.kind, p.role)
+            q.on = p.on
+            return q
+        r.c = [cp(p) for p in self.c]
+        r.out = [cp(p) for p in self.out]
+        r.nx, r.names, r.bad = self.nx, list(self.names), self.bad
+        return r
+
+    def assign(self, r):
+        self.c, self.out, self.nx, self.names, self.bad = r.c, r.out, r.nx, r.names, r.bad
+
+    def returnable(self):
+        return [p for p in self.out if p.role != "runner"]
 
     def install(self, name, kind, role=None):
         p = Plug(self.nx, name, kind, role)
@@ -204,14 +236,25 @@ class Reg:
             return [self.nx - 1]
         if k == ":ar":
             n = int(a[1], 16)
+            self.out = [p for p in self.c if p.name == n] + self.out
             self.c = [p for p in self.c if p.name != n]
             return [i for i, m in self.names if m == n]
         if k in (":ae", ":ad"):
             i = int(a[1], 16)
-            for p in self.c:
+            for p in self.c + self.out:
                 if p.id == i:
                     p.on = (k == ":ae")
             return [i]
+        if k == ":ab":
+            i = int(a[1], 16)
+            ps = [p for p in self.out if p.id == i and p.role != "runner"]
+            if ps:
+                self.out = [p for p in self.out if p.id != i]
+                self.c.insert(0, ps[0])
+            else:
+                self.bad = True
+            return [i]
+        self.out = self.c + self.out
         self.c = []
         return [i for i, _ in self.names]
 
@@ -305,6 +348,11 @@ def simulate(ops):
         elif k == "reset":
             r.act((":az",))
             trace.append(("c", [], "chain after :reset wrong"))
+        elif k == "reinst":
+            r.act((":ab", o[1]))
+            if r.bad:
+                return False, trace
+            trace.append(("c", [p.id for p in r.c], "chain after :reinst wrong (an object that was removed / dropped, installed again)"))
         else:
             xs = [o[1]] if k == "test" else (o[1] if k == "run" else o[2] * int(o[1], 16))
             if k == "runner":
@@ -316,6 +364,8 @@ def simulate(ops):
                     return False, trace
                 first = j == 0
                 named, start = r.run_test(x)
+                if r.bad:
+                    return False, trace
                 vis = [i for i in start if i not in named]
                 nset = sum(1 for ph in x for s in ph if s[0] == ":set")
                 trace.append(("t", vis, k, j, bool(named), nset))
@@ -462,6 +512,9 @@ def pick_action(rng, r, avoid_ids=(), avoid_names=(), allow_sp=True):
     """an action aimed at the chain as it stands: the head, a middle one, the last, an absent name, a new head ..."""
     c = rng.random()
     cand = [p for p in r.c if p.id not in avoid_ids and p.name not in avoid_names]
+    back = [p for p in r.returnable() if p.id not in avoid_ids and p.name not in avoid_names and (allow_sp or p.kind == 0)]
+    if back and rng.random() < 0.3:
+        return (":ab", "%x" % rng.choice(back).id)
     if c < 0.4 and cand:
         w = rng.random()
         p = cand[0] if w < 0.45 else (cand[-1] if w < 0.6 else rng.choice(cand))
@@ -497,13 +550,18 @@ def gen_xtest(rng, r, p_act=0.6, small=True, sets=None):
             for _k in range(rng.choice([1, 1, 1, 2, 3])):
                 ph = x[rng.choice([0, 1, 1, 1, 2])]
                 ph.insert(rng.randrange(len(ph) + 1), pick_action(rng, r, avoid_ids, avoid_names, allow_sp=not want_sets))
-        if r.test_ok(x):
-            r.run_test(x)
-            return x
+        r2 = r.clone()
+        if r2.test_ok(x):
+            r2.run_test(x)
+            if not r2.bad:
+                r.assign(r2)
+                return x
     x = [[], [], []]
     if not r.test_ok(x):       # cannot happen with generated actors; keeps the generator total
         raise ValueError("no valid test")
     r.run_test(x)
+    if r.bad:                  # an acting plugin re-installs an object that is in the chain by now
+        raise ValueError("no valid test")
     return x
 
 
@@ -551,13 +609,117 @@ def run_session(rng):
     r = Reg()
     ops = []
     setup_chain(rng, r, ops, rng.randrange(1, 6))
-    for _ in range(rng.choice([1, 1, 2])):
-        xs = [gen_xtest(rng, r) for _ in range(rng.randrange(2, 7))]
-        ops.append(("run", xs))
-        if rng.random() < 0.4:
-            setup_chain(rng, r, ops, rng.randrange(0, 3))
-    if rng.random() < 0.3:
-        ops.append(("test", gen_xtest(rng, r, p_act=0.2)))
+    try:
+        for _ in range(rng.choice([1, 1, 2])):
+            xs = [gen_xtest(rng, r) for _ in range(rng.randrange(2, 7))]
+            ops.append(("run", xs))
+            if rng.random() < 0.4:
+                setup_chain(rng, r, ops, rng.randrange(0, 3))
+            if r.returnable() and rng.random() < 0.3:      # bring an object back between two runs
+                p = rng.choice(r.returnable())
+                r.act((":ab", "%x" % p.id))
+                ops.append(("reinst", "%x" % p.id))
+        if rng.random() < 0.3:
+            ops.append(("test", gen_xtest(rng, r, p_act=0.2)))
+    except ValueError:
+        pass
+    return fmt(ops)
+
+
+# ----------------------------------------------------------------------------- generation: plugin objects installed again
+QUIET = [[], [], []]
+
+
+def exhaustive_reinstalls():
+    """every chain of 1-5 uniquely named plugins (object i has name i+1; the chain is newest first) x removal by name of every
+    position x the removed object installed again -- once, twice, two objects in either order, after resetPlugins --, a test
+    after every step"""
+    out = []
+    T = ":test 0 0 0"
+    for n in range(1, 6):
+        base = [":inst %x 0" % (i + 1) for i in range(n)]
+        for i in range(n):                       # object i, name i+1, position n-1-i from the head
+            rm, re_ = ":rm %x" % (i + 1), ":reinst %x" % i
+            out.append(" ".join(base + [rm, T, re_, T]))
+            out.append(" ".join(base + [rm, re_, T, rm, T, re_, T]))                         # twice
+            out.append(" ".join(base + [rm, ":dis %x" % i, re_, T, ":en %x" % i, T]))         # disabled while outside the chain
+            out.append(" ".join(base + [rm, ":inst 20 0", re_, T, ":rm 20", T]))             # a new object in between
+            for j in range(n):
+                if j != i and n <= 4:
+                    rm2, re2 = ":rm %x" % (j + 1), ":reinst %x" % j
+                    out.append(" ".join(base + [rm, rm2, T, re_, T, re2, T]))
+                    out.append(" ".join(base + [rm, rm2, re2, re_, T]))
+        # resetPlugins, then the objects come back in a rotated order (each keeps the stale link it had in the old chain)
+        for k in range(n):
+            order = [(k + d) % n for d in range(n)]
+            out.append(" ".join(base + [":reset"] + [":reinst %x" % i for i in order] + [T]))
+        if n >= 2:
+            out.append(" ".join(base + [":reset", ":reinst %x" % (n - 1), T, ":reinst 0", T]))
+    # inside a run: removal in the second test, the same object back in the fourth, from where
+    for n in range(2, 5):
+        base = [("inst", "%x" % (i + 1), "0") for i in range(n)]
+        for i in range(n):
+            rm, ab = (":ar", "%x" % (i + 1)), (":ab", "%x" % i)
+            for where in ("setup", "body", "teardown"):
+                t_rm = [[rm] if where == "setup" else [], [rm] if where == "body" else [], [rm] if where == "teardown" else []]
+                t_ab = [[ab] if where == "setup" else [], [ab] if where == "body" else [], [ab] if where == "teardown" else []]
+                out.append(fmt(base + [("run", [QUIET, t_rm, QUIET, t_ab, QUIET, QUIET])]))
+                out.append(fmt(base + [("run", [[[rm], [ab], []] if where == "setup" else ([[], [rm, ab], []] if where == "body" else [[], [rm], [ab]]), QUIET, QUIET])]))
+            for ph in ("0", "1"):
+                # an acting plugin (head / first installed) that takes the object out and puts it back in every test
+                out.append(fmt(base + [("act", "30", ph, [rm, ab]), ("run", [QUIET, QUIET, QUIET])]))
+                out.append(fmt([("act", "30", ph, [rm, (":ab", "%x" % (i + 1))])] + [("inst", "%x" % (k + 1), "0") for k in range(n)] + [("run", [QUIET, QUIET, QUIET])]))
+                # removed between runs, brought back by a plugin's action in the first test of the next run
+                out.append(fmt(base + [("rm", "%x" % (i + 1)), ("act", "30", ph, [ab, (":ar", "30")]), ("run", [QUIET, QUIET])]))
+    return out
+
+
+def reinstall_session(rng):
+    """a random history over a handful of plugin objects: install new, remove by name (head / middle / tail / absent name /
+    a name two objects share), reset, install an object again that is outside the chain, enable / disable objects inside and
+    outside the chain, tests (with redirections while a pointer plugin is active) and runs in between"""
+    r = Reg()
+    ops = []
+    names = [1, 2, 3, 4, 5, 6] if rng.random() < 0.75 else [1, 1, 2, 2, 3]     # shared names: one :rm takes several objects out
+    for _ in range(rng.randrange(2, 6)):
+        n = rng.choice(names)
+        kind = 1 if rng.random() < 0.2 else 0
+        r.install(n, kind)
+        ops.append(("inst", "%x" % n, "%x" % kind))
+    steps = rng.randrange(4, 16)
+    try:
+        for _ in range(steps):
+            c = rng.random()
+            back = r.returnable()
+            if c < 0.3 and back:
+                p = rng.choice(back)
+                r.act((":ab", "%x" % p.id))
+                ops.append(("reinst", "%x" % p.id))
+            elif c < 0.55 and r.c:
+                w = rng.random()
+                p = r.c[0] if w < 0.3 else (r.c[-1] if w < 0.5 else rng.choice(r.c))
+                r.act((":ar", "%x" % p.name))
+                ops.append(("rm", "%x" % p.name))
+            elif c < 0.6:
+                r.act((":az",))
+                ops.append(("reset",))
+            elif c < 0.68 and r.nx < 8:
+                n = rng.choice(names)
+                kind = 1 if rng.random() < 0.2 else 0
+                r.install(n, kind)
+                ops.append(("inst", "%x" % n, "%x" % kind))
+            elif c < 0.76 and r.nx:
+                i = rng.randrange(r.nx)
+                b = rng.random() < 0.5
+                r.act((":ae" if b else ":ad", "%x" % i))
+                ops.append(("en" if b else "dis", "%x" % i))
+            elif c < 0.9:
+                ops.append(("test", gen_xtest(rng, r, p_act=0.25, sets=rng.random() < 0.3)))
+            else:
+                ops.append(("run", [gen_xtest(rng, r, p_act=0.5) for _ in range(rng.randrange(2, 5))]))
+        ops.append(("test", gen_xtest(rng, r, p_act=0.0, sets=False)))
+    except ValueError:
+        pass
     return fmt(ops)
 
 
@@ -617,7 +779,7 @@ def runner_session(rng):
                 r.run_test(x)
             if not ok:
                 break
-        if not ok:
+        if not ok or r.bad:
             return None
         ops.append(("runner", "%x" % rep, xs))
         amb = any(p.name == RUNNER_NAME and p.role != "runner" for p in r.c)
@@ -654,8 +816,10 @@ def exhaustive_runner():
 
 
 def generate(tier, rng):
-    out = exhaustive_removals() + exhaustive_runs() + exhaustive_runner()
-    n = 1500 if tier == "quick" else 20000
+    out = exhaustive_removals() + exhaustive_runs() + exhaustive_runner() + exhaustive_reinstalls()
+    n = 1100 if tier == "quick" else 16000
+    for _ in range(n):
+        out.append(reinstall_session(rng))
     for _ in range(n):
         out.append(pointer_session(rng))
     for _ in range(n):
@@ -675,6 +839,8 @@ def nontrivial(s):
         return True
     if (":run" in t or ":runner" in t) and any(a in t for a in ACTS):
         return True
+    if ":reinst" in t or ":ab" in t:
+        return True
     n = 0
     for i, x in enumerate(t):
         if x in (":inst", ":act"):
@@ -692,6 +858,10 @@ def classify(s):
     lab.append("plugins:%d" % (t.count(":inst") + t.count(":act")))
     if ":rm" in t:
         lab.append("removal")
+    if ":reinst" in t:
+        lab.append("reinstall:%s" % ("1" if t.count(":reinst") == 1 else "2+"))
+        if ":reset" in t:
+            lab.append("reinstall-after-reset")
     if any(a in t for a in ABORTS):
         lab.append("abort")
     if ":dis" in t:
@@ -710,7 +880,7 @@ def classify(s):
             pass
     if ":act" in t:
         lab.append("acting-plugin")
-    for a, l in ((":ar", "in-run-remove"), (":ai", "in-run-install"), (":ae", "in-run-enable"), (":ad", "in-run-disable"), (":az", "in-run-reset")):
+    for a, l in ((":ar", "in-run-remove"), (":ai", "in-run-install"), (":ae", "in-run-enable"), (":ad", "in-run-disable"), (":az", "in-run-reset"), (":ab", "in-run-reinstall")):
         if a in t:
             lab.append(l)
     return lab
@@ -811,17 +981,23 @@ def shrink_all(s):
 LEVEL_TEXT = ("Machine-checked (Coq) theorems over an executable model of CppUTestStore / SetPointerPlugin::postTestAction (bounded table, "
               "restore in reverse), Utest::run's setup/body/teardown control flow, the plugin chain's pre/post recursion with enable flags, "
               "TestRegistry install/remove/reset, whole runs (runAllTests: every test takes the chain as the actions of the run so far have "
-              "left it; test statements and plugins' pre/post actions install, remove, enable, disable plugins, also themselves) and "
+              "left it; test statements and plugins' pre/post actions install, remove, enable, disable plugins, also themselves), plugin "
+              "OBJECTS that are removed by name or dropped by resetPlugins and handed to installPlugin again (the chain level: new head with the "
+              "flags it carries; below it the code's own representation -- objects with a next_ link, firstPlugin_ -- with installPlugin "
+              "overwriting the link and removal leaving the removed object's link stale, proved to stay exactly the chain for every history) and "
               "CommandLineTestRunner::runAllTestsMain on registries that already hold arbitrary plugins: every redirected pointer is back at "
               "its pre-test value for all statement sequences and outcomes, the table is empty before every test, the limit fails the test "
               "without writing past the table, post order = reverse pre order, removal by name = the chain without the plugins of that name "
-              "(from the next test of the same run on), under the runner every pointer is restored whatever the registry held. Tied to the "
+              "(from the next test of the same run on), a re-installed object is the head and every enabled installed plugin is reached exactly "
+              "once by the walks over the links, under the runner every pointer is restored whatever the registry held. Tied to the "
               "code by a differential run of the extracted model against a real TestRegistry / CommandLineTestRunner with recording and "
               "acting plugins and scripted tests, with the extracted model-free spec judging the implementation.")
 LEVEL_NOTE = ("Partial for memory safety: the model's table is a bounded list, real accesses to the static table are seen only by ASan. Trusted: Coq "
               "kernel, extraction, harness, generator. Modelled not verified: the C++ itself; exceptions/longjmp by their contract (a failing "
               "statement leaves the phase). Inside the test in which an action names a plugin that plugin's own log entries are not observed "
-              "(the model walks the chain as it stood at the test's start, a plugin taking its turn if still installed and enabled). The static "
+              "(the model walks the chain as it stood at the test's start, a plugin taking its turn if still installed and enabled). The link-level "
+              "model of installPlugin / removePluginByName / resetPlugins is hand-written from TestRegistry.cpp / TestPlugin.cpp (not regenerated); "
+              "installing an object that is in the chain (circular chain) is outside the property and excluded by `valid`. The static "
               "CommandLineTestRunner::RunAllTests wrapper (memory-leak plugin, console output) is not driven, runAllTestsMain is. "
               "MAX_SET is re-read from TestPlugin.h on every run.")
 TECHNIQUE = "Coq proof over hand-written executable model + extracted-model/implementation correspondence check (differential, exhaustive small chains)"
